@@ -100,6 +100,9 @@ func main() {
 	c := &Ctx{Prop: os.Args[1], Tier: os.Args[2], Seed: seed, Out: os.Args[4],
 		Stats: map[string]int{}, distinct: map[uint64]struct{}{}}
 	c.Rng = rand.New(rand.NewSource(seed))
+	if c.Prop == "child:condcycles" {
+		os.Exit(condCycleChild())
+	}
 	if strings.HasPrefix(c.Prop, "finding:") {
 		os.Exit(runFinding(strings.TrimPrefix(c.Prop, "finding:")))
 	}
